@@ -258,6 +258,123 @@ def chain_get(ch, name):
     return None
 
 
+def _affine_min(x, y):
+    """min of two affine forms a*E + b in the same unknown E >= 0 (None when incomparable); None stands for 'no bound'"""
+    if x is None:
+        return y
+    if y is None:
+        return x
+    if x[0] == y[0]:
+        return x if x[1] <= y[1] else y
+    return "?"
+
+
+def value_window(fn, ch, is_values):
+    """Which positions of a value sequence an iterator chain delivers, read off the adaptors: returns dict(first=int, count=(a, b) | None,
+    exact=bool) meaning positions first .. first + a*E + b - 1 where E is the length of the value sequence (the one unknown: a call of
+    elements() / len()), or None when an adaptor is not understood.  `is_values(place)` says whether a chain source is the value sequence.
+    Understood: iter, into_iter, enumerate, map, copied, cloned, by_ref, peekable; take(k), skip(k); zip with a range a..b (b affine in E),
+    with another view of known length, or with a side of unknown length (then exact=False: the side can only shorten the window);
+    a source that is values[a..b]."""
+    def affine(op):
+        if op["k"] == "const":
+            v = op.get("val")
+            return (0, v) if isinstance(v, int) and not isinstance(v, bool) else None
+        l = op_local(op)
+        if l is None:
+            return None
+        r = an.affine_form_opaque(fn, l)
+        if r is None:
+            return None
+        a, b, leaf = r
+        if a != 0 and not (leaf and ("::elements" in leaf or "::len" in leaf)):
+            return None
+        return (a, b)
+
+    def ev(chain):
+        src = chain[-1]
+        st = None
+        pl = src[1] if src[0] == "<source>" else None
+        if pl is not None:
+            d = fn.single_def(fn.copy_root(pl[0])) if not pl[1] else None
+            if d and d[0] == "assign" and d[3]["k"] == "aggregate" and (d[3].get("adt") or "").endswith("ops::range::Range") and len(d[3]["ops"]) == 2:
+                a, b = affine(d[3]["ops"][0]), affine(d[3]["ops"][1])
+                if a is None or b is None or a[0] != 0:
+                    return None
+                st = {"count": (b[0], b[1] - a[1]), "voff": None, "exact": True, "ioff": a[1], "ipath": (), "vpath": None}
+            elif is_values(pl, [x[0] for x in chain]):
+                st = {"count": (1, 0), "voff": 0, "exact": True, "ioff": None, "ipath": None, "vpath": ()}
+        if st is None:
+            # values[a..b] as the source: Index::index(values, Range)
+            for x in reversed(chain):
+                if x[0] == "index" and len(x[1]["args"]) == 2:
+                    rl = op_local(x[1]["args"][1])
+                    d = fn.single_def(fn.copy_root(rl)) if rl is not None else None
+                    if d and d[0] == "assign" and d[3]["k"] == "aggregate" and (d[3].get("adt") or "").endswith("ops::range::Range"):
+                        a, b = affine(d[3]["ops"][0]), affine(d[3]["ops"][1])
+                        if a is not None and b is not None and a[0] == 0:
+                            st = {"count": (b[0], b[1] - a[1]), "voff": a[1], "exact": True, "ioff": None, "ipath": None, "vpath": ()}
+                break
+        if st is None:
+            return {"count": None, "voff": None, "exact": False, "ioff": None, "ipath": None, "vpath": None}      # a side of unknown length
+        for name, t, sides in reversed(chain[:-1]):
+            if name in ("iter", "into_iter", "copied", "cloned", "by_ref", "peekable", "deref", "as_ref", "as_slice", "borrow", "inner", "index"):
+                continue
+            if name == "map":
+                st["ipath"] = st["vpath"] = None       # the element is whatever the closure returns
+                continue
+            if name == "enumerate":
+                # (k, element) with k counted from this point on
+                st["vpath"] = (1,) + st["vpath"] if st["vpath"] is not None else None
+                st["ipath"] = (0,)
+                st["ioff"] = 0
+                continue
+            if name == "take":
+                k = affine(t["args"][1])
+                if k is None:
+                    return None
+                m = _affine_min(st["count"], k)
+                if m == "?":
+                    return None
+                st["count"] = m
+            elif name == "skip":
+                k = affine(t["args"][1])
+                if k is None or k[0] != 0:
+                    return None
+                if st["count"] is not None:
+                    st["count"] = (st["count"][0], st["count"][1] - k[1])
+                if st["voff"] is not None:
+                    st["voff"] += k[1]
+                if st["ioff"] is not None:
+                    st["ioff"] += k[1]
+            elif name == "zip":
+                if len(sides) != 1:
+                    return None
+                o = ev(sides[0])
+                if o is None:
+                    return None
+                m = _affine_min(st["count"], o["count"])
+                if m == "?":
+                    return None
+                st["count"] = m
+                st["exact"] = st["exact"] and o["exact"]
+                st["vpath"] = (0,) + st["vpath"] if st["vpath"] is not None else None
+                st["ipath"] = (0,) + st["ipath"] if st["ipath"] is not None else None
+                if st["voff"] is None and o["voff"] is not None:
+                    st["voff"] = o["voff"]
+                    st["vpath"] = (1,) + o["vpath"] if o["vpath"] is not None else None
+                if st["ioff"] is None and o["ioff"] is not None:
+                    st["ioff"] = o["ioff"]
+                    st["ipath"] = (1,) + o["ipath"] if o["ipath"] is not None else None
+            else:
+                return None
+        return st
+    r = ev(ch)
+    if r is None or r["voff"] is None:
+        return None
+    return {"first": r["voff"], "count": r["count"], "exact": r["exact"], "index_first": r["ioff"], "index_path": r["ipath"], "value_path": r["vpath"]}
+
+
 def _loop_of(fn, b):
     fwd = fn.reachable_from(b)
     return {x for x in fwd if b in fn.reachable_from(x)} if any(b in fn.reachable_from(s) for s in fn.succ.get(b, [])) else set()
